@@ -21,10 +21,16 @@ def idxlist(l):
     return ';'.join(idx(i) for i in l) if l else '_'
 
 
+def c07_sizes(bound, tier):
+    """the square grid [2..bound]^2 (holds rows >= 2 cols and cols >= 2 rows as soon as bound >= 4) plus strips beyond it:
+    narrow side 2 or 3, long side bound+1 .. 12 (quick) / 16 (thorough), both orientations"""
+    return sizes(bound) + common.strips(range(2, 64), bound, 12 if tier == 'quick' else 16)
+
+
 def c07_cases(ctx, bound):
     from qecsim.models.planar import PlanarCode
-    for (R, C) in sizes(bound):
-        code = PlanarCode(R, C)
+
+    def one_size(code, R, C):
         tag = 'planar {}x{}'.format(R, C)
         ctx.case('planar nkd {} {}'.format(R, C), '{} {} {}'.format(*code.n_k_d), meta={'tag': tag})
         ctx.case('planar stabs {} {}'.format(R, C), mat(code.stabilizers), meta={'tag': tag})
@@ -79,6 +85,11 @@ def c07_cases(ctx, bound):
                     ctx.case('planar opat {} {} {} {}'.format(R, C, bits(v), idx((r, c))), o, nontrivial=(o != 'IndexError'))
         if sorted(flats) != list(range(code.n_k_d[0])):
             ctx.monitor_fail('lattice-index <-> qubit map is not a bijection onto range(n)', {'code': tag})
+
+    grid = c07_sizes(bound, ctx.tier)
+    common.grid_report(ctx, NAME, grid)
+    for (R, C) in grid:
+        common.per_size(ctx, NAME, (R, C), lambda: PlanarCode(R, C), one_size)
     # constructor domain
     U = common.ctor_universe()
     for (a, ta), (b, tb) in itertools.product(U, U):
